@@ -3607,7 +3607,8 @@ def create_signed_value(
         # - value (base64-encoded)
         # - signature (hex-encoded; no length prefix)
         def format_field(s: str | bytes) -> bytes:
-            return utf8("%d:" % len(s)) + utf8(s)
+            s = utf8(s)
+            return utf8("%d:" % len(s)) + s
 
         to_sign = b"|".join(
             [
